@@ -119,9 +119,10 @@ var propRules = map[string]*PropSpec{
 		Technique:  techOwn,
 	},
 	"C08": {
-		Rules:       []string{"A4", "A5", "A2.32", "A3.32", "A8", "B6"},
+		Rules:       []string{"A4", "A5", "A2.32", "A3.32", "A8", "B6", "UNS1"},
 		Explanation: explBase + " C08: caller-owned memory enters a bitmap only as container payload under a true copy-on-write flag, never as a slot-table array; every payload write honours the flag; detach deep-copies every flagged slot.",
 		Decided: []string{
+			"no pointer-containing type is overlaid on byte memory: containers cloned by copy-on-write stay visible to the garbage collector",
 			"only the documented zero-copy constructors keep a reference to a caller's slice",
 			"FromBuffer/FromUnsafeBytes/FrozenView/FromDense(no copy): payload slices of the caller's memory are stored only in containers whose slot flag is true on that path; keys/containers/flags arrays are library-allocated", "NextReturnsSafeSlice is true only for a byte source whose Next allocates", "every in-place path obtains its container through the gate (A2) and flags travel with containers (A3)", "CloneCopyOnWriteContainers replaces every flagged slot by a deep clone and clears the flag"},
 		NotDecided: []string{"that the bitmap keeps behaving as a correct set (C01-C04)"},
@@ -138,7 +139,7 @@ var propRules = map[string]*PropSpec{
 		Technique:  techMix,
 	},
 	"C10": {
-		Rules:       []string{"B1", "B4", "B5", "T1", "V1", "V2", "U1", "G1", "U3", "L4", "B6"},
+		Rules:       []string{"B1", "B4", "B5", "T1", "V1", "V2", "U1", "G1", "U3", "L4", "B6", "UNS1"},
 		Explanation: explBase + " C10: decoder error discipline, Must* wrappers, bounded reads, size fields bounded before allocation, validator conjuncts (incl. the wrap bound on every run), no 16-bit arithmetic in the frozen reader.",
 		Decided: []string{
 			"FrozenView evaluates all 256 type-code values: each is either built or rejected",
@@ -171,9 +172,10 @@ var propRules = map[string]*PropSpec{
 		Technique:  "static analysis: goroutine/channel/WaitGroup/pool skeleton rules over go/ssa CFG (must-pass-through, at-most-once)",
 	},
 	"C13": {
-		Rules:       []string{"L4", "L1", "B1", "B3", "A4", "T1", "R1", "B6"},
+		Rules:       []string{"L4", "L1", "B1", "B3", "A4", "T1", "R1", "B6", "UNS1"},
 		Explanation: explBase + " C13: the three frozen writers, the size predictor and the reader agree on type codes, count fields, element sizes and arena order; FreezeTo checks the buffer before writing; errors propagate; the view is flagged.",
 		Decided: []string{
+			"the frozen view's container table and headers live in typed (scanned) memory",
 			"every decoder resets or reassigns all three table arrays of the receiver on every successful path (decoding into a used bitmap keeps nothing)",
 			"type codes bitmap=1/array=2/run=3 and count encodings agree across FreezeTo, WriteFrozenTo, GetFrozenSizeInBytes and frozenView and with the CRoaring layout constants", "FreezeTo's size check dominates every write into buf and the returned count is the checked size", "WriteFrozenTo propagates every writer error", "frozen payloads are flagged copy-on-write, keys are copied", "container count bounded (<= 65536) before allocation"},
 		NotDecided: []string{"byte equality of the three writers on a given input", "Equal after view"},
